@@ -241,6 +241,12 @@ def run(cx):
     # the nonce parity an acknowledgement must reproduce is the bit that went out on the wire
     from bits import check_headers
     check_headers(cx, "C15.s", "C15.t")
+    # a window base that is not a packet id is not an acknowledgement of anything
+    from props.C01 import inst_id_arith
+    inst_id_arith(cx, "C15.u")
+    # an acknowledgement the loss detector has already judged does not enter it again
+    from props.shared import reorder_put_guarded
+    reorder_put_guarded(cx, "C15.v")
     group_width(cx, "C15.k")
     # a genuine acknowledgement of one frame must mark exactly the fragments that frame carried: the flag word/bit
     # written by acknowledge_fragment is the one fragment_acknowledged reads
